@@ -164,5 +164,108 @@ func copyFileConsts(repo string, add func(string, int64, string)) error {
 		v = 1
 	}
 	add("copyfile_cleans_name", v, "unionFile.go copyFile: 1 iff the parent directory is computed from filepath.Clean(name)")
+	rm, err := copyFileCreateBranch(fd)
+	if err != nil {
+		return err
+	}
+	add("copyfile_removes_after_failed_create", rm, "unionFile.go copyFile: 1 iff the error branch of `lfh, err := layer.Create(name)` calls layer.Remove(name) before returning the error")
 	return nil
+}
+
+// copyfile_removes_after_failed_create: what copyFile does when `lfh, err := layer.Create(name)` fails.
+//
+//	0 (the tree as pinned)   if err != nil { return err }
+//	1 (repaired)             if err != nil { layer.Remove(name); return err }
+//
+// The second shape matters when the layer is itself made of several filesystems: CacheOnReadFs.Create creates
+// the file in ITS base, then in its layer, and when the second step fails the first one stays (an empty or
+// truncated file that later reads take for a complete copy: C12 partial-copy:cache2*:L.Create).  Any other
+// shape of that branch (another call in it, Remove of another name or on another receiver, a result that is
+// used, a return of something else) is an error: the model (Model/Union.v copy_file) knows these two only.
+func copyFileCreateBranch(fd *ast.FuncDecl) (int64, error) {
+	if fd.Type.Params == nil || len(fd.Type.Params.List) < 3 {
+		return 0, fmt.Errorf("unionFile.go copyFile: unexpected parameter list")
+	}
+	isIdent := func(e ast.Expr, name string) bool {
+		id, ok := e.(*ast.Ident)
+		return ok && id.Name == name
+	}
+	// layer.<method>(name) with exactly that receiver and that single argument
+	isLayerCall := func(e ast.Expr, method string) bool {
+		ce, ok := e.(*ast.CallExpr)
+		if !ok || len(ce.Args) != 1 || !isIdent(ce.Args[0], "name") {
+			return false
+		}
+		se, ok := ce.Fun.(*ast.SelectorExpr)
+		return ok && se.Sel.Name == method && isIdent(se.X, "layer")
+	}
+	seen, shape := 0, int64(-1)
+	var bad error
+	ast.Inspect(fd, func(n ast.Node) bool {
+		blk, ok := n.(*ast.BlockStmt)
+		if !ok {
+			return true
+		}
+		for i, st := range blk.List {
+			as, ok := st.(*ast.AssignStmt)
+			if !ok || len(as.Rhs) != 1 || !isLayerCall(as.Rhs[0], "Create") {
+				continue
+			}
+			seen++
+			if len(as.Lhs) != 2 || !isIdent(as.Lhs[1], "err") || isIdent(as.Lhs[0], "_") {
+				bad = fmt.Errorf("unionFile.go copyFile: layer.Create(name) is not assigned to (handle, err)")
+				continue
+			}
+			if i+1 >= len(blk.List) {
+				bad = fmt.Errorf("unionFile.go copyFile: no statement after layer.Create(name)")
+				continue
+			}
+			is, ok := blk.List[i+1].(*ast.IfStmt)
+			if !ok || is.Init != nil || is.Else != nil {
+				bad = fmt.Errorf("unionFile.go copyFile: layer.Create(name) is not followed by a plain `if err != nil { ... }`")
+				continue
+			}
+			c, ok := is.Cond.(*ast.BinaryExpr)
+			if !ok || c.Op != token.NEQ || !isIdent(c.X, "err") || !isIdent(c.Y, "nil") {
+				bad = fmt.Errorf("unionFile.go copyFile: the test after layer.Create(name) is not `err != nil`")
+				continue
+			}
+			body := is.Body.List
+			isRetErr := func(s ast.Stmt) bool {
+				r, ok := s.(*ast.ReturnStmt)
+				return ok && len(r.Results) == 1 && isIdent(r.Results[0], "err")
+			}
+			switch {
+			case len(body) == 1 && isRetErr(body[0]):
+				shape = 0
+			case len(body) == 2 && isRetErr(body[1]):
+				es, ok := body[0].(*ast.ExprStmt)
+				if !ok || !isLayerCall(es.X, "Remove") {
+					bad = fmt.Errorf("unionFile.go copyFile: the error branch of layer.Create(name) has a statement before `return err` that is not `layer.Remove(name)`")
+					continue
+				}
+				shape = 1
+			default:
+				bad = fmt.Errorf("unionFile.go copyFile: unknown shape of the error branch of layer.Create(name) (%d statements)", len(body))
+			}
+		}
+		return true
+	})
+	if bad != nil {
+		return 0, bad
+	}
+	if seen != 1 || shape < 0 {
+		return 0, fmt.Errorf("unionFile.go copyFile: expected exactly one `lfh, err := layer.Create(name)`, found %d", seen)
+	}
+	// the parameters must really be called layer and name (otherwise the matches above are about something else)
+	names := map[string]bool{}
+	for _, f := range fd.Type.Params.List {
+		for _, n := range f.Names {
+			names[n.Name] = true
+		}
+	}
+	if !names["layer"] || !names["name"] {
+		return 0, fmt.Errorf("unionFile.go copyFile: parameters layer/name not found")
+	}
+	return shape, nil
 }
